@@ -79,6 +79,8 @@ def main():
     data = json.load(open(path)) if os.path.exists(path) else {"findings": []}
     have = set()
     for f in data["findings"]:
+        if f.get("status") != "known":
+            continue
         wc = f.get("witness_class")
         for w in (wc if isinstance(wc, list) else [wc]):
             have.add((f["property"], f["key"], w))
